@@ -141,6 +141,26 @@ def evaluate(r, trains, edges, mrts, ri, be, rank=()):
                             "spike_profile.shared/%s/%s" % (be, cls), case, 0.0, vals,
                             "profile is not 0 where both trains spike together", rank)
                 return
+    # RI given as 1 / 0, numpy.bool_ or the result of a numpy comparison means the same as the
+    # Python bool
+    try:
+        for tn, val in (("int", int(ri)), ("numpy.bool_", np.bool_(ri)),
+                        ("numpy comparison", np.float64(1.0) > (0.0 if ri else 2.0))):
+            q = spk.spike_profile(st1, st2, MRTS=mrts, RI=val)
+            dq = float(spk.spike_distance(st1, st2, MRTS=mrts, RI=val))
+            if not (all(abs(a - b) <= TOL for a, b in zip(np.asarray(q.y1, float), f1)) and
+                    all(abs(a - b) <= TOL for a, b in zip(np.asarray(q.y2, float), f2)) and
+                    abs(dq - float(O.pwl_average(xe, y1e, y2e))) <= TOL):
+                r.violation(ID, "spike_profile.typed_RI", be,
+                            "spike_profile.typed_RI/%s/%s" % (be, cls), dict(case, RI_given_as=tn),
+                            {"y1": f1, "y2": f2}, {"y1": q.y1, "y2": q.y2, "distance": dq},
+                            "RI given as %s is not treated like the Python bool" % tn, rank)
+                return
+    except Exception as e:
+        r.violation(ID, "spike_profile.typed_RI", be, "spike_profile.typed_RI.exception/%s/%s"
+                    % (be, cls), case, "a profile", "%s: %s" % (type(e).__name__, e),
+                    "RI given as int / numpy.bool_ raised", rank)
+        return
     # evaluation at interior times agrees with the linear interpolation
     try:
         for kx in range(len(x) - 1):
